@@ -165,6 +165,45 @@ func (p *Prog) Discs() []*Disc {
 			}
 		}
 	}
+	// private builders: unexported functions that return the discipline and are called by one of its
+	// constructors (New validates and calls create(opts) / build(opts, interval), which makes the
+	// channels and the struct) count as part of the constructor, after the exported ones
+	for _, fn := range p.Funcs() {
+		if fn.Parent() != nil {
+			continue
+		}
+		obj, _ := fn.Object().(*types.Func)
+		if obj == nil || obj.Exported() {
+			continue
+		}
+		res := fn.Signature.Results()
+		for i := 0; i < res.Len(); i++ {
+			nt := namedOrigin(res.At(i).Type())
+			d := by[nt]
+			if nt == nil || d == nil {
+				continue
+			}
+			if _, isPtr := res.At(i).Type().(*types.Pointer); !isPtr {
+				continue
+			}
+			called := false
+			for _, ct := range d.Ctors {
+				if ct != fn && p.Reach(ct)[fn] {
+					called = true
+				}
+			}
+			already := false
+			for _, ct := range d.Ctors {
+				if ct == fn {
+					already = true
+				}
+			}
+			if called && !already {
+				d.Ctors = append(d.Ctors, fn)
+			}
+			break
+		}
+	}
 	var out []*Disc
 	for _, d := range by {
 		out = append(out, d)
